@@ -1,6 +1,6 @@
 """Rules shared by several properties."""
 from __future__ import annotations
-import ast
+import ast, re
 from .cfg import CFG, header_exprs
 from .frontend import src, walk_no_nested
 
@@ -84,3 +84,57 @@ def stale_alias(prog, eff, f, fields, rule, cons=None):
         if not found:
             rule.ok(cons, 'local %r = self.%s is never used after a call that may re-bind self.%s' % (local, A, A), f, n)
     return n_checked
+
+
+def guarded_refill_needs_empty(prog, f, rule, cons=None):
+    """A loop that writes only the non-zero values of a source into a sparse container
+    (``if v: X.dct[k] = v`` / ``if v: X[i, j] = v``) is a faithful copy only if X is empty
+    when the loop starts: X must be fresh or cleared on every path from entry to the loop."""
+    cons = cons or f.qualname
+    n = 0
+    cfg = None
+    for lp in walk_no_nested(f.node):
+        if not isinstance(lp, ast.For):
+            continue
+        tgt = None
+        for x in ast.walk(lp):
+            if isinstance(x, ast.If) and not x.orelse and len(x.body) == 1 and isinstance(x.body[0], ast.Assign) \
+                    and isinstance(x.body[0].targets[0], ast.Subscript):
+                t = x.body[0].targets[0]
+                base = t.value
+                if isinstance(base, ast.Attribute) and base.attr == 'dct':
+                    base = base.value
+                if isinstance(base, ast.Name) and src(x.body[0].value) in src(x.test):
+                    tgt = base.id
+        if tgt is None:
+            continue
+        if cfg is None:
+            cfg = CFG(f.node)
+        node = cfg.node_of(lp)
+        if node is None:
+            continue
+        n += 1
+
+        def emptied(nd, tgt=tgt):
+            for h in header_exprs(nd):
+                if nd.kind != 'stmt':
+                    continue
+                for x in ast.walk(h):
+                    if isinstance(x, ast.Call) and isinstance(x.func, ast.Attribute) and x.func.attr == 'clear' and src(x.func.value) == tgt:
+                        return True
+                    if isinstance(x, ast.Assign):
+                        names = [t.id for t in x.targets if isinstance(t, ast.Name)]
+                        if tgt in names and isinstance(x.value, ast.Call) and re.search(r'(from_size|from_shape|blank|SparseVector|SparseArray)$', src(x.value.func)):
+                            return True
+                        if any(isinstance(t, ast.Subscript) and src(t.value) == tgt and src(t.slice) == ':' for t in x.targets) \
+                                and isinstance(x.value, ast.Constant) and x.value.value == 0:
+                            return True
+            return False
+        wit = cfg.path_avoiding(cfg.entry, node, emptied)
+        if wit is None:
+            rule.ok(cons, 'non-zero-only refill of %r starts from an empty container on every path' % tgt, f, lp)
+        else:
+            rule.fail(cons, 'refill-not-emptied-%s' % tgt, 'only the non-zero source values are written into %r, but on some path it is neither fresh nor '
+                      'cleared first: entries that became zero keep their old value' % tgt, f, lp,
+                      witness=' -> '.join('L%d' % x.lineno for x in wit if x.lineno))
+    return n
